@@ -38,8 +38,22 @@ def cond_counts(fu):
 		rs = [fu.reach([x], removed_blocks=cut) if x not in cut else set() for x in succs]
 		union = set().union(*rs)
 		inter = set(rs[0]).intersection(*rs[1:])
+		# a short-circuit condition (`a || b`, `a && b && c`) is lowered to one bool local with one definition per term, tested by ONE switch:
+		# the weight of a switch is the number of definitions of the local it tests (an added `|| c` adds a definition, not a switch the act
+		# depends on)
+		w = 1
+		if t[2][0] in ('c', 'm') and len(t[2][1]) == 1:
+			x = t[2][1][0]
+			for _ in range(3):
+				ds = [d for d in fu.defs.get(x, []) if len(d[2]) == 1]
+				if len(ds) == 1 and ds[0][1] != 'T' and ds[0][3][0] == 'use' and ds[0][3][1][0] in ('c', 'm') and len(ds[0][3][1][1]) == 1:
+					x = ds[0][3][1][1][0]
+				else:
+					break
+			if (fu.locals[x].get('ty') or '') == 'bool' and x > fu.argc:
+				w = max(1, len([d for d in fu.defs.get(x, []) if len(d[2]) == 1]))
 		for b in union - inter:
-			cnt[b] += 1
+			cnt[b] += w
 	return cnt
 
 _C = {}
@@ -48,7 +62,7 @@ def census(F):
 	"""{(file, fn tail, callee key): sorted tuple of condition counts over its call sites}, plus where"""
 	if F.dir in _C:
 		return _C[F.dir]
-	cache = os.path.join(F.dir, 'cache_guards.json')
+	cache = os.path.join(F.dir, 'cache_guards2.json')
 	if os.path.exists(cache):
 		try:
 			d = json.load(open(cache))
@@ -115,7 +129,7 @@ def table():
 		_T = json.load(open(os.path.join(os.path.dirname(os.path.abspath(__file__)), 'guards_table.json')))
 	return _T
 
-def rule(F, rule_id, file_res, floor=1, profile=None):
+def rule(F, rule_id, file_res, floor=1, profile=None, fn_re=None):
 	tab, where, known = census(F)
 	prof = profile or ('dev' if F.dir.rstrip('/').endswith('-dev') else 'release')
 	T = table().get(prof)
@@ -128,6 +142,8 @@ def rule(F, rule_id, file_res, floor=1, profile=None):
 		if not any(re.search(p, fl.replace(':', '/src/')) for p in file_res):
 			continue
 		if tail not in known.get(fl, ()):
+			continue
+		if fn_re and not re.search(fn_re, tail):
 			continue
 		cur = tab.get((fl, tail, key))
 		if cur is None or len(cur) != len(counts):
@@ -151,6 +167,8 @@ SCOPE = {
 	'C05': ([r'ln/channel\.rs$', r'ln/chan_utils\.rs$', r'sign/mod\.rs$'], 2132),
 	'C06': ([r'chain/channelmonitor\.rs$', r'chain/onchaintx\.rs$', r'chain/package\.rs$'], 951),
 	'C07': ([r'chain/channelmonitor\.rs$', r'chain/onchaintx\.rs$', r'chain/package\.rs$', r'util/sweep\.rs$', r'events/bump_transaction/', r'sign/mod\.rs$'], 1216),
+	'C08': ([r'ln/channel\.rs$', r'ln/channelmanager\.rs$', r'chain/channelmonitor\.rs$', r'ln/onion_payment\.rs$', r'chain/onchaintx\.rs$'], 320,
+		r'^(block_confirmed|do_best_block_updated|best_block_updated|do_chain_event|check_incoming_htlc_cltv|can_forward_htlc|can_forward_htlc_should_intercept|transactions_confirmed|should_broadcast_holder_commitment_txn|update_claims_view_from_requests|update_claims_view_from_matched_txn|process_pending_update_add_htlcs|get_pending_htlc_info|create_recv_pending_htlc_info|create_fwd_pending_htlc_info|timer_tick_occurred|get_onchain_failed_outbound_htlcs|fail_unbroadcast_htlcs)$'),
 	'C09': ([r'chain/chainmonitor\.rs$', r'ln/channelmanager\.rs$', r'ln/channel\.rs$'], 3839),
 	'C10': ([r'ln/channelmanager\.rs$', r'chain/channelmonitor\.rs$', r'ln/outbound_payment\.rs$'], 2737),
 	'C11': ([r'chain/channelmonitor\.rs$', r'chain/onchaintx\.rs$', r'chain/chainmonitor\.rs$', r'ln/channel\.rs$'], 2628),
@@ -166,5 +184,5 @@ SCOPE = {
 }
 
 def for_property(F, pid, rule_id):
-	res, floor = SCOPE[pid]
-	return rule(F, rule_id, res, floor)
+	sc = SCOPE[pid]
+	return rule(F, rule_id, sc[0], sc[1], fn_re=sc[2] if len(sc) > 2 else None)
